@@ -3,6 +3,7 @@ package sim
 import (
 	"encoding/json"
 	"fmt"
+	"os"
 	"runtime/debug"
 	"time"
 
@@ -97,8 +98,12 @@ type Chain struct {
 }
 
 func newApp(db dbm.DB, chainID string) *exocoreapp.ExocoreApp {
+	var logger log.Logger = log.NewNopLogger()
+	if os.Getenv("VERIF_LOG") != "" {
+		logger = log.NewFilter(log.NewTMLogger(log.NewSyncWriter(os.Stdout)), log.AllowError())
+	}
 	return exocoreapp.NewExocoreApp(
-		log.NewNopLogger(), db, nil, true, map[int64]bool{},
+		logger, db, nil, true, map[int64]bool{},
 		exocoreapp.DefaultNodeHome, 5,
 		encoding.MakeConfig(exocoreapp.ModuleBasics),
 		simtestutil.NewAppOptionsWithFlagHome(exocoreapp.DefaultNodeHome),
